@@ -893,6 +893,7 @@ func runC03(r *Run) {
 	}
 	r.wrapSweep(map[bool]int{true: 1, false: 7}[r.thorough()], true)
 	r.ringCases(map[bool]int{true: 20000, false: 1500}[r.thorough()])
+	r.c03TCP()
 }
 
 func sortInts(a []int) {
